@@ -29,6 +29,8 @@ UNARY = (
 )
 BINARY = ["extend", "add", "semi", "anti", "inner", "left"]
 READERS = {"keys", "pluck"}
+CHAINABLE = {"filter", "filter_out", "filter_kv", "filter_out_kv", "sort", "unique", "head", "tail", "slice", "copy", "reverse",
+             "drop_na", "append", "insert", "mul"}
 EDITORS = {"modify", "modify_if", "fill", "fill_all", "unselect", "select", "rename", "inner", "left"}
 
 
@@ -89,13 +91,42 @@ def do_call(lists, e, nested=False):
     return call15(x, a)
 
 
+class Lists:
+    """The lists of a session; an entry can be held weakly (a temporary of a method chain: the harness does not keep
+    it alive, only the library's own references do).  A dead entry reads as None."""
+
+    def __init__(self):
+        self._e = []
+
+    def append(self, obj):
+        self._e.append(["s", obj, None])
+
+    def weaken(self, i, last):
+        import weakref
+        self._e[i] = ["w", weakref.ref(self._e[i][1]), last]
+
+    def __len__(self):
+        return len(self._e)
+
+    def __getitem__(self, i):
+        kind, ref, _ = self._e[i]
+        return ref if kind == "s" else ref()
+
+    def __iter__(self):
+        return (self[i] for i in range(len(self._e)))
+
+    def last_seen(self, i):
+        return self._e[i][2]
+
+
 class Session:
     def __init__(self, init_items, nested=False):
         import dataiter as di
         self.ids = {}
         self.keep = []
         self.nested = nested
-        self.lists = [di.ListOfDicts([(nest(to_py(x), nested) if nested else to_py(x)) for x in init_items])]
+        self.lists = Lists()
+        self.lists.append(di.ListOfDicts([(nest(to_py(x), nested) if nested else to_py(x)) for x in init_items]))
         self.note(self.lists[0])
 
     def note(self, lst):
@@ -105,8 +136,15 @@ class Session:
                 self.keep.append(it)
 
     def observe(self):
-        return {"lists": [{"its": [self.ids[id(it)] for it in list.__iter__(l)], "ob": bool(l._obsolete)} for l in self.lists],
-                "items": [to_abs_nested(it) for it in self.keep]}
+        out = []
+        for i in range(len(self.lists)):
+            l = self.lists[i]
+            if l is None:          # a temporary that nothing keeps alive any more: last observation, marked gone
+                out.append(dict(self.lists.last_seen(i), gone=True))
+            else:
+                out.append({"its": [self.ids[id(it)] for it in list.__iter__(l)], "ob": bool(l._obsolete)})
+            del l
+        return {"lists": out, "items": [to_abs_nested(it) for it in self.keep]}
 
     def step(self, e):
         buf = io.StringIO()
@@ -126,7 +164,10 @@ class Session:
                 self.note(out)
         except Exception as ex:
             err = type(ex).__name__ + ": " + str(ex)[:80]
+        out = None
         obs = self.observe()
+        if e.get("tmp") and not err and e["a"]["op"] not in READERS and e["a"]["op"] != "poke":
+            self.lists.weaken(len(self.lists) - 1, obs["lists"][-1])       # held weakly from now on
         obs["ret"] = ret
         obs["fresh"] = fresh
         obs["warn"] = buf.getvalue().count(WARNING)
@@ -146,10 +187,12 @@ def random_trace(rng, nsteps):
     tr = {"init": {"items": [to_abs_nested(x) for x in s.keep], "lists": [[s.ids[id(it)] for it in list.__iter__(s.lists[0])]]},
           "nested": nested, "steps": []}
     warned = {1: False}
+    chain = None          # index of a temporary created by the previous call: the next call is made on it (a method chain)
     for _ in range(nsteps):
-        x = rng.randint(1, len(s.lists))
-        if rng.random() < 0.25 and len(s.lists) >= 1:
-            o = rng.randint(1, len(s.lists))
+        alive = [i + 1 for i in range(len(s.lists)) if s.lists[i] is not None]
+        x = chain if (chain and s.lists[chain - 1] is not None) else rng.choice(alive)
+        if rng.random() < 0.25 and len(s.lists) >= 1 and not chain:
+            o = rng.choice(alive)
             a = {"op": rng.choice(BINARY)}
             if a["op"] in ("semi", "anti", "inner", "left"):
                 # differently named keys whenever the other list has been renamed to carry "aa"
@@ -170,10 +213,16 @@ def random_trace(rng, nsteps):
             e = {"x": x, "o": 0, "a": rng.choice(UNARY)}
         if len(s.keep) > 40 or len(s.lists) > 12:
             break
+        chain = None
+        if e["a"]["op"] in CHAINABLE and rng.random() < 0.3:
+            e["tmp"] = True
+        n0 = len(s.lists)
         e["obs"] = s.step(e)
         tr["steps"].append(e)
         if e["obs"]["err"]:
             break
+        if e.get("tmp") and len(s.lists) == n0 + 1:
+            chain = n0 + 1
     return tr
 
 
